@@ -54,7 +54,7 @@ func runC04(r *run) {
 			emit(caseT{"history", args})
 		}
 	}
-	driveCases(r, func(emit func(caseT)) { gen(emit); genC04Errors(rg, emit) }, execC04)
+	driveCases(r, func(emit func(caseT)) { gen(emit); genC04Errors(rg, emit); genC04Excluded(rg, emit) }, execC04)
 	r.finish(nil)
 }
 
@@ -93,6 +93,39 @@ func genC04Errors(rg *rng, emit func(caseT)) {
 			args = append(args, "-", "-", hx("{{ "+f+" }}"))
 			emit(caseT{"history", args})
 		}
+	}
+}
+
+func genC04Excluded(rg *rng, emit func(caseT)) {
+	for i, pair := range [][2]string{
+		{"{% lorem 5 w random %}", "{% lorem 8 w %}|{% lorem 2 p %}|{% lorem 2 b %}|{% lorem %}"},
+		{"{% lorem 3 p random %}{% lorem 2 b random %}", "{% lorem 3 p %}|{% lorem 4 b %}|{% lorem 30 w %}"},
+		{"{{ lst|random }}{{ nums|random }}{{ s1|random }}", "{{ lst|join:\",\" }}|{{ nums|join:\",\" }}|{{ s1 }}|{{ lst|first }}{{ nums|last }}"},
+		{"{% now \"2006-01-02 15:04:05.000000\" %}", "{% now \"\" %}|x"},
+		{"{% for q in mm %}{{ q }}{% endfor %}", "{% for k, v in mm sorted %}{{ k }}{{ v }}{% endfor %}|{{ mm.a }}"},
+	} {
+		src := "{% if sel == 1 %}" + pair[0] + "{% else %}" + pair[1] + "{% endif %}"
+		g := newProgGen(rg.fork(uint64(8000 + i)))
+		a := g.context(0)
+		mk := func(sel int) gctx {
+			var c gctx
+			for _, e := range a {
+				if e.key != "sel" {
+					c = append(c, e)
+				}
+			}
+			return append(c, ctxEntry{"sel", gInt(sel)})
+		}
+		hist := []gctx{mk(0), mk(1), mk(0), mk(1), mk(1), mk(0)}
+		parts := make([]string, len(hist))
+		for j, h := range hist {
+			parts[j] = h.descr()
+		}
+		args := (&world{}).args(src, nil)
+		args[1] = strings.Join(parts, "~")
+		// extra: the value of sel whose output is excluded from comparison
+		args = append(args, "-", "-", "-", "excluded:i1")
+		emit(caseT{"history", args})
 	}
 }
 
@@ -167,7 +200,7 @@ func execC04(r *run, c caseT) {
 		errTexts = append(errTexts, et)
 		// a failure is reported where it happened, whatever failed before (in this or any other
 		// template of the process)
-		if perr, ok := xerr.(*pongo2.Error); ok && len(c.args) > 9 && perr.Line > 0 {
+		if perr, ok := xerr.(*pongo2.Error); ok && len(c.args) > 9 && c.args[9] != "-" && perr.Line > 0 {
 			construct := unhx(c.args[9])
 			first, last := strings.Index(src, construct), strings.LastIndex(src, construct)
 			want := first
@@ -184,7 +217,17 @@ func execC04(r *run, c caseT) {
 				return
 			}
 		}
-		if p != nil {
+		excluded := false
+		if len(c.args) > 10 && strings.HasPrefix(c.args[10], "excluded:") {
+			for _, e := range h {
+				if e.key == "sel" && e.val.descr() == strings.TrimPrefix(c.args[10], "excluded:") {
+					excluded = true
+				}
+			}
+		}
+		if excluded && p == nil && xerr == nil {
+			obs = append(obs, "excluded")
+		} else if p != nil {
 			obs = append(obs, "panic")
 		} else if xerr != nil {
 			obs = append(obs, "xerr")
@@ -220,6 +263,9 @@ func execC04(r *run, c caseT) {
 	}
 	// (c) every execution gives what a fresh compile gives
 	for i, h := range hist {
+		if obs[i] == "excluded" {
+			continue
+		}
 		fo, _ := w.render(src, false, h)
 		if fo.obs == "xerr" && obs[i] == "xerr" && fo.err != nil && fo.err.Error() != errTexts[i] {
 			d2 := map[string]any{"template": src, "options": w.opts(), "observed_error": errTexts[i], "fresh_error": fo.err.Error()}
